@@ -20,6 +20,7 @@ open Pyrtl
 structure Cert where
   removed : List Net
   sigma : List (Nat × Nat)     -- removed destination ↦ replacement wire
+  rewrites : List (Net × Net) := []   -- a kept net ↦ the net (same destination) that takes its place
 
 def sub (σ : List (Nat × Nat)) (a : Nat) : Nat := (σ.lookup a).getD a
 
@@ -27,8 +28,12 @@ def substNet (σ : List (Nat × Nat)) (n : Net) : Net := { n with args := n.args
 
 def keptNets (b : Block) (c : Cert) : List Net := b.nets.filter (fun n => !c.removed.contains n)
 
+/-- the net that stands for the kept net `n` after the pass, before the replacement map is applied -/
+def rewritten (c : Cert) (n : Net) : Net := (c.rewrites.lookup n).getD n
+
 /-- the netlist after the pass -/
-def applyCert (b : Block) (c : Cert) : Block := { b with nets := (keptNets b c).map (substNet c.sigma) }
+def applyCert (b : Block) (c : Cert) : Block :=
+  { b with nets := (keptNets b c).map (fun n => substNet c.sigma (rewritten c n)) }
 
 def commutative : Op → Bool
   | .and | .or | .xor | .nand | .add | .mul | .eq => true
@@ -47,17 +52,99 @@ def argEq (b : Block) (a a' : Nat) : Bool :=
 def argsEq (b : Block) (l l' : List Nat) : Bool :=
   l.length == l'.length && (l.zip l').all (fun p => argEq b p.1 p.2)
 
+/-- the values of argument wires that are all constants -/
+def constVals (b : Block) : List Nat → Option (List Nat)
+  | [] => some []
+  | a :: rest => match b.kind a, constVals b rest with
+    | .const v, some vs => some (v :: vs)
+    | _, _ => none
+
+/-- the value a net with constant arguments computes (memory reads are never folded) -/
+def foldVal (b : Block) (n : Net) : Option Nat :=
+  match n.op with
+  | .mread _ => none
+  | op => (constVals b n.args).map (fun vs => Spec.comb op ((n.args.map b.width).zip vs) (b.width n.dest))
+
+/-- a one-bit gate with one constant operand `cv` acts on its other operand like `g` (checked on both values) -/
+def oneConstTable (op : Op) (cv : Nat) (constFirst : Bool) (g : Nat → Nat) : Bool :=
+  [0, 1].all (fun xv =>
+    Spec.comb op (if constFirst then [(1, cv), (1, xv)] else [(1, xv), (1, cv)]) 1 == g xv)
+
+/-- `n` is a one-bit gate `cv op x` / `x op cv`: returns (cv, constFirst, x) -/
+def oneConst? (b : Block) (n : Net) : Option (Nat × Bool × Nat) :=
+  match n.args with
+  | [p, q] =>
+    if b.width p == 1 && b.width q == 1 && b.width n.dest == 1 then
+      match b.kind p, b.kind q with
+      | .const cv, .const _ => none
+      | .const cv, _ => some (cv, true, q)
+      | _, .const cv => some (cv, false, p)
+      | _, _ => none
+    else none
+  | _ => none
+
+def twoVarOp : Op → Bool
+  | .and | .or | .xor | .nand => true
+  | _ => false
+
+/-- a `w` net or an all-bits-in-order select of equal width -/
+def justAlias (b : Block) (c : Cert) (r : Net) : Bool :=
+  match r.op, r.args with
+  | .w, [a] => sub c.sigma a == sub c.sigma r.dest && b.width a == b.width r.dest
+  | .select idx, [a] => fullSlice idx (b.width a) && sub c.sigma a == sub c.sigma r.dest && b.width a == b.width r.dest
+  | _, _ => false
+
+/-- constant folding: every argument is a constant and the replacement is a constant wire of that value and width -/
+def justConst (b : Block) (c : Cert) (r : Net) : Bool :=
+  match b.kind (sub c.sigma r.dest), foldVal b r with
+  | .const cv, some fv => cv == fv && b.width (sub c.sigma r.dest) == b.width r.dest
+  | _, _ => false
+
+/-- a one-bit gate with one constant operand whose result does not depend on the other operand -/
+def justConst1 (b : Block) (c : Cert) (r : Net) : Bool :=
+  twoVarOp r.op && (match b.kind (sub c.sigma r.dest), oneConst? b r with
+    | .const k, some (cv, cf, _) => oneConstTable r.op cv cf (fun _ => k) && b.width (sub c.sigma r.dest) == 1
+    | _, _ => false)
+
+/-- a one-bit gate with one constant operand that passes its other operand through -/
+def justIdent (b : Block) (c : Cert) (r : Net) : Bool :=
+  twoVarOp r.op && (match oneConst? b r with
+    | some (cv, cf, a) => oneConstTable r.op cv cf (fun xv => xv) && sub c.sigma a == sub c.sigma r.dest
+    | none => false)
+
+/-- the same computation (same op, destination width and arguments; commutative ops possibly swapped) is kept -/
+def justCse (b : Block) (c : Cert) (r : Net) : Bool :=
+  b.nets.any (fun k => !c.removed.contains k && k.op.isComb && k.dest == sub c.sigma r.dest && k.op == r.op
+        && b.width k.dest == b.width r.dest
+        && (argsEq b k.args r.args || (commutative k.op && argsEq b k.args r.args.reverse)))
+
 /-- why the removed net `r` may go: its destination always equals the replacement -/
 def justified (b : Block) (c : Cert) (r : Net) : Bool :=
-  let y := r.dest
-  let x := sub c.sigma y
-  (match r.op, r.args with
-    | .w, [a] => sub c.sigma a == x && b.width a == b.width y
-    | .select idx, [a] => fullSlice idx (b.width a) && sub c.sigma a == x && b.width a == b.width y
-    | _, _ => false)
-  || b.nets.any (fun k => !c.removed.contains k && k.op.isComb && k.dest == x && k.op == r.op
-        && b.width k.dest == b.width y
-        && (argsEq b k.args r.args || (commutative k.op && argsEq b k.args r.args.reverse)))
+  justAlias b c r || justConst b c r || justConst1 b c r || justIdent b c r || justCse b c r
+
+/-- why the kept net `o` may be replaced by `n'` (same destination): `n'` computes what `o` computes -/
+def rewriteJustified (b : Block) (o n' : Net) : Bool :=
+  n'.dests == o.dests &&
+  ((match n'.op, n'.args, foldVal b o with
+      | .w, [cw], some fv => (match b.kind cw with
+          | .const cv => cv % 2 ^ b.width o.dest == fv
+          | _ => false)
+      | _, _, _ => false)
+   || (match n'.op, n'.args with
+      | .w, [cw] => twoVarOp o.op && (match b.kind cw, oneConst? b o with
+          | .const k, some (cv, cf, _) => oneConstTable o.op cv cf (fun _ => k % 2)
+          | _, _ => false)
+      | _, _ => false)
+   || (match n'.op, n'.args with
+      | .w, [a] => twoVarOp o.op && (match oneConst? b o with
+          | some (cv, cf, a') => a' == a && oneConstTable o.op cv cf (fun xv => xv)
+          | none => false)
+      | _, _ => false)
+   || (match n'.op, n'.args with
+      | .inv, [a] => twoVarOp o.op && (match oneConst? b o with
+          | some (cv, cf, a') => a' == a && oneConstTable o.op cv cf (fun xv => 1 - xv)
+          | none => false)
+      | _, _ => false))
 
 /-- well-formedness of a certificate -/
 def certOk (b : Block) (c : Cert) : Bool :=
@@ -67,6 +154,9 @@ def certOk (b : Block) (c : Cert) : Bool :=
   && c.removed.all (fun r => (c.sigma.lookup r.dest).isSome)
   -- replacements are kept wires: not themselves removed destinations
   && c.sigma.all (fun p => !c.removed.any (fun r => r.dest == p.2))
+  -- rewritten nets are kept combinational nets of the block, each rewritten once and justified
+  && c.rewrites.all (fun p => b.nets.contains p.1 && !c.removed.contains p.1 && p.1.op.isComb && p.2.op.isComb
+        && rewriteJustified b p.1 p.2)
 
 /-! ### executable side conditions of the run theorem (evaluated by the driver on every tested block) -/
 
